@@ -1280,6 +1280,7 @@ class Interp:
                 if o.cls is not None:
                     return any(a in c.attrs or a in c.methods
                                for c in o.cls.mro())
+                return False
             if isinstance(o, ClassRef):
                 return any(a in c.attrs or a in c.methods
                            for c in o.cls.mro())
